@@ -299,3 +299,74 @@ fn engine_closed_connack_reset_contracts() {
     for f in &failures { println!("BOUNDED-FAIL engine_closed_connack_reset_contracts {}", f); }
     assert!(failures.is_empty(), "{} failing scenarios", failures.len());
 }
+
+/// C18 (bounded stand-in for start_operation_ack_timeout / process_ack_timeouts): every operation written at t0 with ack timeout T
+/// fails with AckTimeout at the first service at or after t0+T and not before; an operation acked before its deadline, or without
+/// a timeout, never does; the engine's reported service time never sleeps through a pending deadline (C08).
+#[test]
+fn ack_timeouts_fire_exactly_at_deadline() {
+    use std::time::Duration;
+    let thorough = super::tier_thorough();
+    let touts: [Option<u64>; 4] = [None, Some(10), Some(30), Some(50)];
+    let kinds = [Kind::Pub1, Kind::Pub2, Kind::Sub, Kind::Unsub];
+    let n = if thorough { 3 } else { 2 };
+    let mut all: Vec<(Kind, Option<u64>)> = Vec::new();
+    for k in kinds { for t in touts { all.push((k, t)); } }
+    let combos = sequences(&all, n, 1);
+    let mut cases = 0u64;
+    let mut fails: Vec<String> = Vec::new();
+    for combo in &combos { for step in [5u64, 7, 20] { for ack_first_at in [None, Some(8u64), Some(25)] {
+        cases += 1;
+        let cfg = Cfg { policy: OfflineQueuePolicy::PreserveAll, drain: PostReconnectQueueDrainPolicy::None, mode: ProtocolMode::Mqtt5, retries: None, keep_alive: None, ack_timeout: None };
+        let mut h = H::new(cfg);
+        let fs = |d: u64| ((d + step - 1) / step) * step;          // first service at or after d
+        let r: Result<(), String> = (|| {
+            h.connect(false, None).map_err(|e| err_name(&e))?;
+            let tags: Vec<(u64, Option<u64>)> = combo.iter().map(|(k, t)| (h.submit_with_timeout(*k, t.map(Duration::from_millis)), *t)).collect();
+            h.service(4096).map_err(|e| err_name(&e))?;
+            h.write_completion().map_err(|e| err_name(&e))?;
+            let first_reply = h.sent_this_connection.iter().skip(1).next().and_then(|p| h.broker_reply(p));
+            let mut ack_t: Option<u64> = None;
+            let mut fired: HashMap<u64, u64> = HashMap::new();
+            let mut t = 0u64;
+            while t <= 80 {
+                if let (Some(at), None) = (ack_first_at, ack_t) { if t >= at {
+                    ack_t = Some(t);
+                    if h.result_count(tags[0].0) == 0 { if let Some(reply) = first_reply.clone() { h.deliver(reply, 64).map_err(|e| format!("deliver: {}", err_name(&e)))?; } }
+                } }
+                let now = h.now;
+                let next = h.ps.get_next_service_timepoint(&now);
+                for (tag, to) in &tags { if let Some(to) = to { if h.result_count(*tag) == 0 && h.ps.operations.values().any(|op| topic_of(&op.packet) == Some(format!("t/{}", tag))) {
+                    let deadline = h.cfg_base() + Duration::from_millis(*to);
+                    if next.map(|x| x > deadline && x > now).unwrap_or(true) { return Err(format!("C08 reported service time sleeps through the ack deadline of tag {} (+{} ms) at t={}", tag, to, t)); }
+                } } }
+                h.service(4096).map_err(|e| format!("service: {}", err_name(&e)))?;
+                if h.ps.pending_write_completion { h.write_completion().map_err(|e| err_name(&e))?; }
+                h.check_wf()?;
+                for (tag, _) in &tags { if let Some(Outcome::Err(e)) = h.result_of(*tag) { if e == "AckTimeout" { fired.entry(*tag).or_insert(t); } else { return Err(format!("tag {} failed with {}", tag, e)); } } }
+                t += step; h.advance(step);
+            }
+            for (i, (tag, to)) in tags.iter().enumerate() {
+                match to {
+                    None => { if fired.contains_key(tag) { return Err(format!("tag {} has no ack timeout but failed with AckTimeout", tag)); } }
+                    Some(to) => {
+                        if i == 0 && ack_first_at.is_some() {
+                            if combo[0].0 == Kind::Pub2 { continue; }                      // a PUBREC does not complete the operation; not asserted here
+                            let a = fs(ack_first_at.unwrap());
+                            if a <= fs(*to) { if fired.contains_key(tag) { return Err(format!("tag {} acked at {} ms, deadline {} ms, still timed out", tag, a, to)); } continue; }
+                        }
+                        match fired.get(tag) {
+                            Some(at) => { if *at != fs(*to) { return Err(format!("tag {} with ack timeout {} ms failed at {} ms (service every {} ms), expected {}", tag, to, at, step, fs(*to))); } }
+                            None => return Err(format!("tag {} with ack timeout {} ms never timed out (service every {} ms up to 80 ms)", tag, to, step)),
+                        }
+                    }
+                }
+            }
+            Ok(())
+        })();
+        if let Err(e) = r { if fails.len() < 30 { fails.push(format!("ops={:?} step={} ack_first_at={:?} :: {}", combo, step, ack_first_at, e)); } }
+    } } }
+    println!("BOUNDED ack_timeouts_fire_exactly_at_deadline cases={} bound=<={} acked operations x timeouts {{none,10,30,50 ms}} x service period {{5,7,20 ms}} x first ack at {{never,8,25 ms}}", cases, n);
+    for f in &fails { println!("BOUNDED-FAIL ack_timeouts_fire_exactly_at_deadline {}", f); }
+    assert!(fails.is_empty());
+}
